@@ -19,7 +19,7 @@ template<multi::dimensionality_type D> using CS = multi::const_subarray<double, 
 template<multi::dimensionality_type D> using AR = multi::array<double, D>;
 template<multi::dimensionality_type D> using AI = multi::array<int, D>;
 ''', cut=[r'_ZSt.*terminate', r'_ZNSt7__cxx11', r'_ZSt9to_string', r'_ZSt20__throw_length_error', r'_ZSt17__throw_bad_alloc', r'_ZSt28__throw_bad_array_new_length'],
-      noinline=[r'^_ZSt20uninitialized_copy_n', r'^_ZSt6copy_n', r'^_ZSt20uninitialized_fill_n', r'^_ZSt6fill_n', r'subarray<double, \dl.*::operator=<double, double\*', r'^_ZNSt7__cxx11'])
+      noinline=[r'^_ZSt20uninitialized_copy_n', r'^_ZSt6copy_n', r'subarray<double, \dl.*::operator=<double, double\*', r'subarray<double, \dl.*::operator=\(boost::multi::const_subarray', r'^_ZSt20uninitialized_fill_n', r'^_ZSt6fill_n', r'subarray<double, \dl.*::operator=<double, double\*', r'^_ZNSt7__cxx11'])
 
 def ARR(D, T='double'): return r're:boost::multi::array<%s,%d(,std::allocator<%s>)?>' % (T, D, T)
 def EIc(D): return 're:boost::multi::elements_iterator_t<constdouble\\*,boost::multi::layout_t<%d>>' % D
@@ -226,3 +226,39 @@ for D in (1, 2, 3):
           ensures=[('clear() leaves an empty array with the layout of empty extensions', 'EXC == 0 && ' + ' && '.join(canonical('self', D, ['0']*D, ['0']*D))),
                    ('the storage is released exactly once (if there was any); nothing is allocated', 'g_news == 0 && (%s == 0 ? g_deletes == 0 : (g_deletes == 1 && g_deleted == (void*)OLD(self->base_)))' % Na)],
           covers=['g_n0 > 1', '%s == 0' % Na], assigns=['*self'], objbits=12, timeout=900, unwind=4, cbmc_flags=['--no-pointer-check'], solvers=('cvc5', 'cadical'))
+
+# ---------------------------------------------------------------------------------------------------------------------
+# assignment from a view of any layout:  array<double,D>::operator=(const_subarray<double,D,double*> const&)
+#   equal extensions  -> exactly one view assignment (C05) of the source onto the whole target, storage untouched;
+#   otherwise         -> a new array is built from the view (the O*_ctor_view skeleton: canonical layout of the source extents, fresh storage,
+#                        one std::uninitialized_copy_n over elements() of the source view) and adopted; the old storage is released once.
+for D in (1, 2, 3):
+    na = ['g_n%d' % k for k in range(D)]; fa = ['g_f%d' % k for k in range(D)]; nb = ['g_m%d' % k for k in range(D)]; fb = ['g_e%d' % k for k in range(D)]
+    Na, Nb = prod(na), prod(nb)
+    effa = lambda k: ('(%s == 0 ? 0 : %s)' % (prod(na[k:]), fa[k]), '(%s == 0 ? 0 : %s + %s)' % (prod(na[k:]), fa[k], na[k]))
+    effv = lambda k: ('(%s == 0 ? 0 : %s)' % (nb[k], fb[k]), '(%s == 0 ? 0 : %s + %s)' % (nb[k], fb[k], nb[k]))       # a view reports dimension k empty iff its own span is 0
+    same_ext = ' && '.join('%s == %s && %s == %s' % (effa(k)[0], effv(k)[0], effa(k)[1], effv(k)[1]) for k in range(D))
+    UCN = Stub(r'double\* std::uninitialized_copy_n<boost::multi::elements_iterator_t<double const\*, boost::multi::layout_t<%dl, long> >, long, double\*>\(.*' % D,
+               record=[('g_cp_first', 0, EIc(D)), ('g_cp_n', 1, None), ('g_cp_dst', 2, None, 'ptr')], ret='g_cp_ret', count='g_cp_calls', optional=True,
+               absent='int g_cp_calls;')
+    VAS = Stub(r'.*boost::multi::subarray<double, %dl, double\*, boost::multi::layout_t<%dl, long> >::operator=(<[^(]*>)?\(boost::multi::const_subarray<double, %dl, double\*, boost::multi::layout_t<%dl, long> > const&\) &' % ((D,)*4),
+               record=[('g_L', 0, MSUB(D)), ('g_R', 1, SUB(D))], count='g_as_calls', ret='g_as_ret')
+    same_view = lambda g, v, cast='': ' && '.join(['%s.base_ == %s->base_' % (g, v)] + ['%s.%s%s == %s' % (g, 'sub_.'*k, x, lp(v, k, x)) for k in range(D) for x in ('stride_', 'offset_', 'nelems_')])
+    Check('O%d_assign_view' % D, ['C04', 'C19'], 'own', fn='w_O%d_assign_view' % D, params=['self', 'v'],
+          wrapper=('void', 'AR<%d>* self, CS<%d> const* v' % (D, D), '*self = *v;'),
+          cxx={'self': ARR(D), 'v': SUB(D)}, ghosts=ghosts_fn(D) + ghosts_fn(D, f='g_e', n='g_m'), stubs=[NEW, DEL, UCN, VAS], mode='uf',
+          requires=[' && '.join('0 <= %s && %s < SMALL && INR(%s)' % (n, n, f) for n, f in zip(na, fa)), is_canonical('self', D, na, fa), WF('v', D, f='g_e', n='g_m'),
+                    '%s == 0 && %s == 1' % (lp('v', D, 'offset_'), lp('v', D, 'nelems_')), 'INOFF(%s) && INOFF(%s)' % (Na, Nb), ' && '.join('%s < SMALL' % n for n in nb),
+                    ' && '.join('INOFF(%s) && INOFF(%s)' % (lp('v', k, 'nelems_'), lp('v', k, 'offset_')) for k in range(D)), 'self->base_ != 0 && v->base_ != 0 && g_block != 0 && PTR_SANE(v->base_)'],
+          lemmas=prod_lemmas(na, fa) + prod_lemmas(nb, fb) + WF_lemmas('v', D, f='g_e', n='g_m'),
+          ensures=canonical_ens('self', D, nb, fb, lambda k: '%s == 0' % nb[k], guard='EXC == 0 && !(%s)' % same_ext, what='the target') + [
+                   ('equal extensions: [delegation] exactly one view assignment, nothing else', 'IMPLIES(EXC == 0 && %s, g_as_calls == 1 && g_cp_calls == 0 && g_news == 0 && g_deletes == 0)' % same_ext),
+                   ('equal extensions: the view assignment writes the whole target (its base and layout in every dimension) from exactly the source view; storage and layout of the target are kept',
+                    'IMPLIES(EXC == 0 && %s && g_as_calls == 1, %s && %s && self->base_ == OLD(self->base_) && %s)' % (same_ext, same_view('g_L', 'self'), same_view('g_R', 'v'), is_canonical('self', D, na, fa))),
+                   ('different extensions: [delegation] the elements are copied by exactly one std::uninitialized_copy_n over the elements() range; no view assignment', 'IMPLIES(EXC == 0 && !(%s), g_cp_calls == 1 && g_as_calls == 0)' % same_ext),
+                   ('different extensions: it receives elements().begin() of the source view (same base, same layout, position 0), the full count, the new storage',
+                    'IMPLIES(EXC == 0 && !(%s) && g_cp_calls == 1, g_cp_first.n_ == 0 && %s && g_cp_n == %s && g_cp_dst == self->base_)' % (same_ext, same_range('g_cp_first', 'v', D), Nb)),
+                   ('different extensions: storage for exactly num_elements() elements is obtained once; the old storage is released exactly once (if there was any)',
+                    'IMPLIES(EXC == 0 && !(%s), %s && (%s == 0 ? g_deletes == 0 : (g_deletes == 1 && g_deleted == (void*)OLD(self->base_))))' % (same_ext, storage('self', Nb), Na))],
+          covers=['EXC == 0 && %s && g_n0 > 1' % same_ext, 'EXC == 0 && !(%s) && g_m0 > 1 && g_n0 > 1' % same_ext, 'EXC == 0 && g_e0 != 0 && g_m0 > 0 && !(%s)' % same_ext],
+          assigns=['*self'], objbits=12, timeout=1500, unwind=4, cbmc_flags=['--no-pointer-check'], solvers=('cvc5', 'cadical'), tier='quick' if D < 3 else 'thorough')
